@@ -1,6 +1,6 @@
 import Tmv.Drv.Core
 import Tmv.Sha256
-import Tmv.Model.Validate
+import Tmv.Model.ValidateCommit
 /-! Line-protocol driver for C06 (block validation / MakeBlock / size budget / updateState). -/
 namespace Tmv.Drv.C06
 open Tmv Tmv.ProtoSize Tmv.Validate
@@ -135,11 +135,25 @@ def showRes : Except Err Unit → String
   | .ok _ => "ok"
   | .error e => showErr e
 
-/-- environment for one op: the two foreign verdicts come with the op line -/
-def envOf (t : List String) : Env :=
-  let vc := (kv t "vc").getD "ok"
+/-- the (key, timestamp, signature) triples of the op's commit that the real ed25519 accepted:
+slot `i` is checked against the validator at position `i` of `LastValidators` over the canonical
+vote of that slot, exactly the call C07's model makes (`sigok=` has one character per slot:
+`1` verifies, `0` does not, `-` absent / no validator at that position) -/
+def validTriples (st : State) (c : Commit) (bits : String) : List (Nat × Int × Bytes) :=
+  let bl := bits.toList
+  (List.range c.sigs.length).filterMap fun i =>
+    match c.sigs[i]?, st.lastVals[i]?, bl[i]? with
+    | some s, some v, some '1' => some (keyId v.pubKey, s.ts, s.sig)
+    | _, _, _ => none
+
+/-- environment for one op: `VerifyCommit` is C07's model; the signature predicate and the
+evidence pool's answer come with the op line -/
+def envOf (t : List String) (st : State) (c : Option Commit) : Env :=
   let adm := (kv t "evadm").getD "1"
-  concreteEnv Hs (fun _ _ _ _ _ => if vc = "ok" then none else some vc) (fun _ _ => adm = "1")
+  let tr := match c with
+    | some c => validTriples st c ((kv t "sigok").getD "")
+    | none => []
+  cvEnv Hs (fun k sb s => tr.contains (k, sb.ts, s)) (fun _ _ => adm = "1")
 
 structure S where
   st : Option State := none
@@ -211,13 +225,13 @@ def step (s : S) (toks : List String) : S × String :=
     | _, _, _ => (s, "bad-op")
   | "block" :: t =>
     match s.st, parseBlock t with
-    | some st, some b => ({ s with blk := some b }, blockLine (envOf t) st b)
+    | some st, some b => ({ s with blk := some b }, blockLine (envOf t st b.lastCommit) st b)
     | _, _ => (s, "bad-op")
   | "make" :: t =>
     match s.st, (kv t "h").bind String.toInt?, (kv t "txs").bind hexList, (kv t "ev").bind parseEvs,
           (kv t "prop").bind ofHex, (kv t "lc").bind parseCommit with
     | some st, some h, some txs, some evs, some prop, some (some c) =>
-      let env := envOf t
+      let env := envOf t st (some c)
       let b := makeBlock env st h txs c evs prop
       ({ s with blk := some b }, showHeader b.header ++ " " ++ blockLine env st b)
     | _, _, _, _, _, _ => (s, "bad-op")
@@ -225,7 +239,7 @@ def step (s : S) (toks : List String) : S × String :=
     match s.st, (kv t "h").bind String.toInt?, (kv t "pool").bind hexList, (kv t "ev").bind parseEvs,
           (kv t "prop").bind ofHex, (kv t "lc").bind parseCommit with
     | some st, some h, some pool, some evs, some prop, some (some c) =>
-      let env := envOf t
+      let env := envOf t st (some c)
       match proposalDataBudget st (evByteSize evs) with
       | none => (s, "maxdata=panic")
       | some budget =>
@@ -239,7 +253,7 @@ def step (s : S) (toks : List String) : S × String :=
     match s.st, s.blk, (kv t "bid").bind parseBID, (kv t "res").bind parseResults,
           kv t "changed", kv t "nvals", (kv t "pu").bind parsePU, (kv t "apph").bind ofHex with
     | some st, some b, some bid, some res, some ch, some nvs, some pu, some apph =>
-      let env := envOf t
+      let env := envOf t st b.lastCommit
       let hint : Option ValSet := if nvs = "err" then none else parseVals nvs
       if nvs ≠ "err" ∧ hint.isNone then (s, "bad-op") else
       -- the hint is the set after `UpdateWithChangeSet` and `IncrementProposerPriority(1)` (C08)
